@@ -9,7 +9,7 @@ ASSUME = [
     'the GLINE operator authenticates with the credentials of the configuration in force; without configured operators the GLINE must be refused (481) and change nothing; each GLINE bans a fresh victim address',
     'captcha tokens for configuration B are produced by the harness with the secret of the model (the current wall clock is only an input of the token, never an expected value)',
 ]
-RULE = ('all sequences of the given depth over {postA, postB, postInvalid, postWrongType, postStale, postFuture, postNoHeader, gline, traffic, snapshot, restart, fsmBad}; '
+RULE = ('all sequences of the given depth over {postA, postB, postHuge (a valid document of more than 64 KiB: a ban list of 1700 entries), postHugeBad (more than 64 KiB with the syntax error behind byte 65536), postInvalid, postWrongType, postStale, postFuture, postNoHeader, gline, traffic, snapshot, restart, fsmBad}; '
         'oracle after every operation: status code (200 accepted / 400 rejected), exactly one Config log entry with revision+1 on acceptance, no log entry / identical canonical state dump / identical GET /config on rejection, '
         'GET /config revision header and body (field by field) equal to the model, FSM compaction window equal to the configured expiration, and config-dependent behaviour '
         '(login with/without captcha, captcha URL and secret, OPER with the credentials of A and B, trusted bridge keys, allowed origins, ban enforcement for every configured and GLINE ban; the traffic operation adds services passwords, MaxChannels and MaxSessions)')
